@@ -248,6 +248,10 @@ def build_seq(ctx, tape, cap, source):
 def build_groupby(ctx, tape, cap, source):
     b = core.bnp()
     col = tape.weighted([(3, "chromosome"), (1, "start")], "gb.col")
+    # (a grouping column declared `str` — ragged text — is not generated here: a streamed group-by over such a column
+    # always raises TypeError inside npstructures under numpy 2 (int() of a size-1 array in the fast path `keys[-1]`),
+    # the in-memory form works and is exercised by C12's `table_strkey` sources)
+    strkey = False
     if col == "chromosome":
         names = gen_key_names(tape, "key")
         rows = gen_grouped_rows(tape, cap, names, "iv")
@@ -259,7 +263,8 @@ def build_groupby(ctx, tape, cap, source):
             cur += tape.weighted([(2, 0), (2, 1), (1, 7)], "iv.step")
             rows.append(("chr1", cur, cur + 1 + tape.draw(5, "iv.width")))
         keys = [r[1] for r in rows]
-    case = Case("groupby", "groupby_" + col, "interval", rows, keys, {"column": col})
+    case = Case("groupby", "groupby_" + col + ("_strkey" if strkey else ""), "strkey" if strkey else "interval", rows, keys,
+                {"column": col})
 
     def compute(src, streamed):
         data = src.stream() if streamed else src.whole()
